@@ -325,6 +325,8 @@ def run(argv):
     j, limit, only = 5, None, None
     it = iter(argv)
     for a in it:
+        if a == "--survivors":
+            continue
         if a == "-j":
             j = int(next(it))
         elif a == "--limit":
@@ -336,6 +338,13 @@ def run(argv):
     resf = OUT / "results.jsonl"
     if resf.exists():
         done = {json.loads(ln)["id"] for ln in resf.read_text().splitlines() if ln.strip()}
+    if "--survivors" in argv:
+        # second pass: the edits that passed the suite and no check, again, with the checks as they are now
+        rows = [json.loads(ln) for ln in resf.read_text().splitlines() if ln.strip()]
+        surv = {r["id"] for r in rows if r.get("tests") == "pass" and not r.get("detected")}
+        resf = OUT / "results2.jsonl"
+        done2 = {json.loads(ln)["id"] for ln in resf.read_text().splitlines() if ln.strip()} if resf.exists() else set()
+        done = {m["id"] for m in data["mutants"]} - surv | done2
     todo = [m for m in data["mutants"] if m["id"] not in done and m["props"] and (only is None or only in m["file"] + ":" + m["func"])]
     # spread over the code rather than walking file by file
     todo.sort(key=lambda m: m["id"])
@@ -396,6 +405,9 @@ def one(argv):
 def report():
     data = {m["id"]: m for m in json.loads((OUT / "mutants.json").read_text())["mutants"]}
     rows = [json.loads(ln) for ln in (OUT / "results.jsonl").read_text().splitlines() if ln.strip()]
+    if (OUT / "results2.jsonl").exists():       # second pass over the survivors replaces their first result
+        r2 = {json.loads(ln)["id"]: json.loads(ln) for ln in (OUT / "results2.jsonl").read_text().splitlines() if ln.strip()}
+        rows = [r2.get(r["id"], r) for r in rows]
     n = len(rows)
     tf = sum(1 for r in rows if r.get("tests") in ("fail", "timeout"))
     det = sum(1 for r in rows if r.get("detected"))
